@@ -1,15 +1,14 @@
-/* Contract of dispenso::NoLockPoolAllocator::alloc() used for graph nodes: a fresh, exclusive block of
- * chunkSize_ bytes (what property C42 establishes for the real slab carving: 128-chunk slabs, 127 pushes
- * per slab -- symbolic execution of that loop alone exceeded 15 minutes).  The block is given the
- * element type of the node class so that CBMC sees a typed object instead of a byte array. */
+/* Contract of dispenso::NoLockPoolAllocator::alloc() as used for graph nodes: a fresh, exclusive block of
+ * chunkSize_ bytes (what property C42 establishes for the real slab carving; the real function carves
+ * 128-chunk slabs with 127 vector pushes per slab and places the nodes inside a 12 KB byte buffer --
+ * symbolic execution of that alone did not finish in 15 minutes).  The block gets the element type of the
+ * node class so that CBMC sees a typed object instead of a byte array. */
+#ifndef VF_C30_NODE_T
+#define VF_C30_NODE_T struct S_class_dispenso__Node_133c07
+#endif
 uint8_t *vf_c30_pool_alloc(void *self) {
   uint64_t n = *(uint64_t *)self; /* PoolAllocatorT::chunkSize_ is the first member */
-#ifdef VF_C30_BIPROP
-  if (n == sizeof(struct S_class_dispenso__BiPropNode_VF_C30_BIPROP_TAG))
-    return (uint8_t *)vf_nonnull(__CPROVER_allocate(sizeof(struct S_class_dispenso__BiPropNode_VF_C30_BIPROP_TAG), 0));
-#else
-  if (n == sizeof(struct S_class_dispenso__Node_133c07))
-    return (uint8_t *)vf_nonnull(__CPROVER_allocate(sizeof(struct S_class_dispenso__Node_133c07), 0));
-#endif
+  if (n == sizeof(VF_C30_NODE_T))
+    return (uint8_t *)vf_nonnull(__CPROVER_allocate(sizeof(VF_C30_NODE_T), 0));
   return (uint8_t *)vf_malloc(n);
 }
